@@ -706,6 +706,36 @@ def _contains_yield(node):
     return False
 
 
+_LOCALS_CACHE = {}
+
+
+def _assigned_locals(fnode):
+    """names bound by assignment / for / with / except-as / import / def in the function's own body (not nested functions)"""
+    key = id(fnode)
+    if key in _LOCALS_CACHE:
+        return _LOCALS_CACHE[key]
+    names = set()
+
+    def walk(n, top=False):
+        if not top and isinstance(n, (ast.FunctionDef, ast.AsyncFunctionDef, ast.ClassDef)):
+            names.add(n.name)
+            return
+        if isinstance(n, ast.Lambda) or isinstance(n, (ast.ListComp, ast.SetComp, ast.DictComp, ast.GeneratorExp)):
+            return
+        if isinstance(n, ast.Name) and isinstance(n.ctx, ast.Store):
+            names.add(n.id)
+        if isinstance(n, ast.ExceptHandler) and n.name:
+            names.add(n.name)
+        if isinstance(n, (ast.Import, ast.ImportFrom)):
+            for a in n.names:
+                names.add((a.asname or a.name).split(".")[0])
+        for c in ast.iter_child_nodes(n):
+            walk(c)
+    walk(fnode, True)
+    _LOCALS_CACHE[key] = names
+    return names
+
+
 # ------------------------------------------------------------------ vocabulary
 class Vocab:
     """what contracts use to build symbolic argument shapes"""
@@ -1636,6 +1666,12 @@ class Interp:
         try:
             v = env.lookup(name)
         except KeyError:
+            # a name the CURRENT function assigns somewhere, read on a path where it has not been assigned: CPython raises
+            # UnboundLocalError (a behaviour of the analysed program, not a gap of the executor)
+            fr = self.frames[-1] if self.frames else None
+            fnode = getattr(getattr(fr, "fn", None), "node", None)
+            if fnode is not None and not isinstance(fnode, ast.Lambda) and name in _assigned_locals(fnode):
+                raise PyRaise(ExcVal("UnboundLocalError", (f"local variable '{name}' referenced before assignment",)))
             raise Unsupported(f"{self.module.name}:{getattr(node, 'lineno', '?')}: unbound name {name}")
         if isinstance(v, Opaque) and v.tag.startswith("unevaluated"):
             raise Unsupported(v.tag)
